@@ -727,6 +727,13 @@ def c15(tier, seed, work):
                store_consts(Buckets={"bkt1"}, KeySetName="hostile5", Bodies={"x1"}, CfgName="single",
                             OpNames={"PutMetaB", "GetObject", "HeadObject", "DeleteObject", "ListObjects"}),
                ["singleos"], reopen=True, **st)
+    # a restart BEFORE the last step of every history as well (the first request after a restart is a write, a delete,
+    # a copy ... onto what the previous process left), then the restart before the audit
+    tour_stage(rep, work, "reopen-before-last-step", "MC_Store", store_consts(Buckets={"bkt1"}, OpNames=CORE_OPS | {"PutMetaB"}),
+               ["bolt", "multios"], opts="boltsync,reopenmid", reopen=True, **st)
+    tour_stage(rep, work, "reopen-before-last-step-single", "MC_Store",
+               store_consts(Buckets={"bkt1"}, CfgName="single", OpNames=(CORE_OPS | {"PutMetaB"}) - {"ListBuckets"}),
+               ["singleos"], opts="reopenmid", reopen=True, **st)
     # keys named like the fs backends' own scratch files, across a restart
     tour_stage(rep, work, "reopen-scratch-file-names", "MC_Store",
                store_consts(Buckets={"bkt1"}, KeySetName="hostile4", Bodies={"x1"},
